@@ -419,14 +419,18 @@ class DungeonModeConstants:
         self.close_constant = close_constant
         self.open_and_request_constant = open_and_request_constant
 
-    def get_explorerscript_constant_for(self, idx: int) -> str:
+    def get_explorerscript_constant_for(self, idx: int | SsbOpParam) -> str:
+        if idx == 0:
+            return self.close_constant
         if idx == 1:
             return self.open_constant
         if idx == 2:
             return self.request_constant
         if idx == 3:
             return self.open_and_request_constant
-        return self.close_constant
+        # Not one of the four dungeon modes (another number, or a constant, which is what the compiler emits
+        # for the names above): it stands for itself.
+        return str(idx)
 
 
 NUMBER_OF_SPACES_PER_INDENT = 4
